@@ -405,3 +405,22 @@ func verifySig(pub any, format string, blob, data []byte) error {
 	}
 	return fmt.Errorf("unknown key %T", pub)
 }
+
+type rsaP struct{ n, e, d *big.Int }
+
+func rsaParts(k *testKey) rsaP {
+	p := k.priv.(*rsa.PrivateKey)
+	return rsaP{p.N, big.NewInt(int64(p.E)), p.D}
+}
+
+func dsaParts(k *testKey) *dsa.PrivateKey { return k.priv.(*dsa.PrivateKey) }
+
+type ecP struct {
+	point []byte
+	d     *big.Int
+}
+
+func ecParts(k *testKey) ecP {
+	p := k.priv.(*ecdsa.PrivateKey)
+	return ecP{elliptic.Marshal(p.Curve, p.X, p.Y), p.D}
+}
